@@ -10,7 +10,8 @@ Record ecase := EC {
   i_results : list (list (Z * Z));   (* per thread, oldest first *)
   i_word : Z; i_status : Z;          (* 0 done 1 deadlock 2 budget *)
   i_blocked : list Z;                (* tids blocked at the end *)
-  i_cur : list Z }.                  (* per thread: index of the operation it is in *)
+  i_cur : list Z;                    (* per thread: index of the operation it is in *)
+  i_wf : list (Z * Z) }.             (* every waitFor that returned true: (its target, the word read right after the return) *)
 
 Definition op_target (o : op) : option Z :=
   match o with OWait v => Some v | OWaitFor v _ => Some v | OArrive => Some 0 | _ => None end.
@@ -41,7 +42,10 @@ Fixpoint early_any (progs : list (list op)) (res : list (list (Z * Z))) : bool :
   | p :: ps, r :: rs => early_in (filter logs p) r || early_any ps rs
   | _, _ => false
   end.
-Definition early_return (c : ecase) : bool := early_any (e_progs c) (i_results c).
+(* ... and a waitFor(v) that reported completion did so on word = v (no step of another thread lies between the return
+   and the harness's load) *)
+Definition early_return (c : ecase) : bool :=
+  early_any (e_progs c) (i_results c) || existsb (fun vw => negb (fst vw =? snd vw)) (i_wf c).
 
 Definition agrees (c : ecase) : bool :=
   let '(s, tr, st) := run_event (e_fuel c) (e_w0 c) (e_tmo c) (e_progs c) (e_sched c) in
